@@ -183,6 +183,8 @@ def c03(res: CheckResult) -> None:
               list(F.fam_inv_sub(res.tier, rng)), ic, require_outcomes=["ret", "Violation"])
     call_unit(res, "contract errors deriving from BaseException, the same contract violated three times in a row",
               list(F.fam_errbase(res.tier, rng)), ic)
+    from icv import tablecheck as T
+    T.check_calls(res, ic, only=lambda cell: cell["shape"].startswith("builtin_"))
     def_unit(res, "member selection: which members of a class / subclass carry invariant checks, per check_on combination",
              list(DF.fam_wraptable(res.tier, rng)), ic, rng=rng)
     def_unit(res, "member kinds (method, property, static, class method) inherited / overridden under invariants",
@@ -492,6 +494,7 @@ def c14(res: CheckResult) -> None:
         "signature, abstractness, coroutine-ness, __wrapped__)"]
     T.check_ctor(res, ic)
     T.check_meta(res, ic)
+    T.check_calls(res, ic)
     def_unit(res, "decorator stacks with foreign wrappers: one checker, no decorator lost, original reachable",
              list(DF.fam_stacks(res.tier, rng)), ic, rng=rng)
     def_unit(res, "overrides carrying foreign functools.wraps decorators in hierarchies",
